@@ -148,6 +148,8 @@ package storage
 //@ func (*IndexNotificationQueue).Add
 //@   requires q != nil && q.add != nil && !chanClosed(q.add) && ctx != nil
 //@   ensures [C11.add.chan] result != nil && fresh(result) && cap(result) == 1
+//@   ensures [C11.add.open] !chanClosed(result) && len(result) == 0      // Add itself never answers: a closed channel means "applied", and only the event loop may say so
+//@   before send assert [C11.add.item] sentTo == q.add && sent != nil && sent.ctx == ctx && sent.table == table && sent.revision == revision
 //@   modifies family(CH_len)
 
 // Notify: the event loop is told exactly this table and this revision (before-send); Len asks for
@@ -241,13 +243,15 @@ package storage
 //@   results resp, err
 //@   requires e != nil && e.Manager != nil && e.Cluster != nil && e.Cluster.shardView != nil && req != nil && ctx != nil && e.Manager.store != nil && e.Manager.nh != nil
 //@   ensures [C10.engine.put.rev] err == nil ==> resp != nil && resp.Header != nil && resp.Header.Revision == world.lastRev
-//@   modifies family(G_any_nprop), world.lastRev, family(G_any_rHas), family(G_any_rPair)
+//@   ensures [C16.engine.notfound.put] e.Manager.store.rMiss["/tables/" + string(req.Table)] ==> errIs(err, serrors.ErrTableNotFound)      // an unknown table stays recognisable as such for the API layer (errors.Is)
+//@   modifies family(G_any_nprop), world.lastRev, family(G_any_rHas), family(G_any_rMiss), family(G_any_rPair)
 //@ func (*Engine).Delete
 //@   maypanic
 //@   results resp, err
 //@   requires e != nil && e.Manager != nil && e.Cluster != nil && e.Cluster.shardView != nil && req != nil && ctx != nil && e.Manager.store != nil && e.Manager.nh != nil
 //@   ensures [C10.engine.del.rev] err == nil ==> resp != nil && resp.Header != nil && resp.Header.Revision == world.lastRev
-//@   modifies family(G_any_nprop), world.lastRev, family(G_any_rHas), family(G_any_rPair)
+//@   ensures [C16.engine.notfound.delete] e.Manager.store.rMiss["/tables/" + string(req.Table)] ==> errIs(err, serrors.ErrTableNotFound)      // an unknown table stays recognisable as such for the API layer (errors.Is)
+//@   modifies family(G_any_nprop), world.lastRev, family(G_any_rHas), family(G_any_rMiss), family(G_any_rPair)
 //@ func (*Engine).Txn
 //@   maypanic
 //@   results resp, err
@@ -255,14 +259,16 @@ package storage
 //@   requires (forall j int :: 0 <= j && j < len(req.Success) ==> req.Success[j] != nil && opNonNilPayload(req.Success[j])) && (forall j int :: 0 <= j && j < len(req.Failure) ==> req.Failure[j] != nil && opNonNilPayload(req.Failure[j]))
 //@   ensures [C10.engine.txn.rev] err == nil && e.Manager.nh.nprop == old(e.Manager.nh.nprop) + 1 ==> resp != nil && resp.Header != nil && resp.Header.Revision == world.lastRev
 // (a read-only transaction's response comes from the state machine's lookup: its ownership is not established, hence the wide frame)
-//@   modifies family(G_any_nprop), family(G_any_nsync), family(G_any_nstale), family(G_any_lastReq), family(G_any_lastAns), world.lastRev, family(G_any_rHas), family(G_any_rPair), allfields(regattapb.TxnResponse), allfields(regattapb.ResponseHeader)
+//@   ensures [C16.engine.notfound.txn] e.Manager.store.rMiss["/tables/" + string(req.Table)] ==> errIs(err, serrors.ErrTableNotFound)      // an unknown table stays recognisable as such for the API layer (errors.Is)
+//@   modifies family(G_any_nprop), family(G_any_nsync), family(G_any_nstale), family(G_any_lastReq), family(G_any_lastAns), world.lastRev, family(G_any_rHas), family(G_any_rMiss), family(G_any_rPair), allfields(regattapb.TxnResponse), allfields(regattapb.ResponseHeader)
 // Engine.Range: the consistency level asked for decides the read path; the answer's header is new
 //@ func (*Engine).Range
 //@   maypanic
 //@   results resp, err
 //@   requires e != nil && e.Manager != nil && e.Cluster != nil && e.Cluster.shardView != nil && req != nil && ctx != nil && e.Manager.store != nil && e.Manager.nh != nil
 //@   ensures [C10.engine.range.path] err == nil && req.Linearizable ==> e.Manager.nh.nsync == old(e.Manager.nh.nsync) + 1 && e.Manager.nh.nstale == old(e.Manager.nh.nstale)
-//@   modifies family(G_any_nsync), family(G_any_nstale), family(G_any_lastReq), family(G_any_lastAns), family(G_any_rHas), family(G_any_rPair), allfields(regattapb.RangeResponse)
+//@   ensures [C16.engine.notfound.range] e.Manager.store.rMiss["/tables/" + string(req.Table)] ==> errIs(err, serrors.ErrTableNotFound)      // an unknown table stays recognisable as such for the API layer (errors.Is)
+//@   modifies family(G_any_nsync), family(G_any_nstale), family(G_any_lastReq), family(G_any_lastAns), family(G_any_rHas), family(G_any_rMiss), family(G_any_rPair), allfields(regattapb.RangeResponse)
 
 // ---------------------------------------------------------------- constructor wiring (C06, C13/C14)
 
